@@ -215,7 +215,7 @@ func canonPack(o packOut) string {
 
 // ---------- generator ----------
 
-var pNames = []string{"a", "b", "c.tf", "d", "e", ".git", ".terraform", "modules", "x y", "é", "foo", "bar", ".terraformignore-not", "z"}
+var pNames = []string{"a", "b", "c.tf", "d", "e", ".git", ".terraform", "modules", "x y", "é", "foo", "bar", ".terraformignore-not", "z", "..data", "...", "..2024", "-dash", ".hidden"}
 var pRuleFiles = []string{"", "foo\n", "d/\n", "*.tf\n", "d/\n!d/e\n", "/a\n", "**/b\n", "d/*\n", "!foo\nfoo/\n", "# c\n\n  \n!\nbar/\n", "e\n!e/a\n", "a+b\n", "d/**/a\n"}
 
 func genTree(r *Rng) []PNode {
@@ -232,6 +232,9 @@ func genTree(r *Rng) []PNode {
 		{Path: "p/ext/dir/sub/deep", Kind: "f", Perm: 0644, Mtime: 1300000009e9, Data: "deep"},
 		{Path: "p/ext/chain", Kind: "l", Data: "file"},
 		{Path: "p/outside.txt", Kind: "f", Perm: 0600, Mtime: 1300000010e9, Data: "secret"},
+		{Path: "p/ext/pipe", Kind: "s"},
+		{Path: "p/ext/ca", Kind: "l", Data: "cb"},
+		{Path: "p/ext/cb", Kind: "l", Data: "ca"},
 	}
 	if r.Chance(30) {
 		// links inside the outside directory: back into the source tree, and on to another outside file
@@ -262,7 +265,8 @@ func genTree(r *Rng) []PNode {
 			ups := strings.Repeat("../", depth)
 			targets := []string{"a", "b", "d", "d/a", "nonexist", ".", ups + "a", "../" + ups + "src-evil/secret", "../" + ups + "ext/file", "../" + ups + "ext/dir",
 				"../" + ups + "ext/chain", "../" + ups + "outside.txt", "@ARENA@/p/src/a", "@ARENA@/p/ext/file", "@ARENA@/p/ext/dir", ups + "d/../a", "../" + ups + "src/a", ups + "foo", "../" + ups + "ext/dir/sub",
-				"@ARENA@/p/src/../outside.txt", "@ARENA@/p/src/d/../../ext/file", "@ARENA@/p/src/../src-evil/secret", "@ARENA@/p/src/d/../a"}
+				"@ARENA@/p/src/../outside.txt", "@ARENA@/p/src/d/../../ext/file", "@ARENA@/p/src/../src-evil/secret", "@ARENA@/p/src/d/../a",
+				"../" + ups + "ext/pipe", "../" + ups + "ext/ca"}
 			nodes = append(nodes, PNode{Path: p, Kind: "l", Data: r.Pick(targets)})
 		default:
 			nodes = append(nodes, PNode{Path: p, Kind: "s"})
@@ -525,6 +529,9 @@ func judgePack(rep *Report, c *PCase, arena, src string, allow []string, out pac
 		fail("C05", "Unpack refuses a slug that Pack produced from a tree whose links are all relative", escSig)
 	}
 	// ---- C02: round trip (no ignore rules, no dereferencing, links relative and inside) ----
+	if !c.Ignore && !c.Deref && len(allow) == 0 && !hasOutsideLink && relOnly && uo.class != "ok" && escSig == "" {
+		fail("C02", "unpacking the slug that Pack produced from a tree of files, directories and in-tree relative links fails: "+uo.class, "")
+	}
 	if !c.Ignore && !c.Deref && len(allow) == 0 && !hasOutsideLink && relOnly && uo.class == "ok" {
 		rep.Count("c02:judged")
 		var diffs []string
